@@ -12,4 +12,5 @@ def run(ctx, rep):
     implicit.rule_ord_of_case_mapping(ctx, rep, "C10-R6", modules=("regex",), floor=4)
     textparse.rule_ascii_digit_scanners(ctx, rep, "C10-R7", modules=("regex.parser",))
     regexrules.rule_positions_nonnegative(ctx, rep, "C10-R8")
+    textparse.rule_host_parser_text_admitted(ctx, rep, "C10-R9", modules=("regex.parser",), floor=2)
     rep.undecided += ["wall-clock time per match"]
